@@ -1021,7 +1021,7 @@ pub fn run(args: &Args, report: &Report) {
         .extra
         .get("per-shard")
         .and_then(|s| s.parse().ok())
-        .unwrap_or(args.by_tier(10, 60));
+        .unwrap_or(args.by_tier(8, 40));
     let args2 = args.clone();
     let report2 = report.clone();
     let thorough = args.is_thorough();
